@@ -104,6 +104,7 @@ func (e *Engine) check(st *Step) {
 	e.checkC09(st)
 	e.checkC10(st)
 	e.checkC11(st)
+	e.checkC16Step(st)
 	for _, ev := range st.Evs {
 		if ev.Dir == "recv" {
 			e.obs("recv:"+ev.Kind, 1)
